@@ -144,7 +144,36 @@ func c01Regression() []regCase {
 	for i := range long {
 		long[i] = int32(i)
 	}
+	big := make([]int32, 1500)
+	bigAny := make([]interface{}, 1025)
+	bigPtr := make([]*zoo.Inner, 1030)
+	bigStr := make([]string, 1025)
+	for i := range big {
+		big[i] = int32(i * 7)
+	}
+	for i := range bigAny {
+		bigAny[i] = int32(i)
+		if i%5 == 0 {
+			bigAny[i] = "s"
+		}
+	}
+	for i := range bigPtr {
+		if i%3 != 0 {
+			bigPtr[i] = &zoo.Inner{A: int32(i), S: "p"}
+		}
+	}
+	for i := range bigStr {
+		if i%4 != 0 {
+			bigStr[i] = "x"
+		}
+	}
 	return []regCase{
+		{"typed-slice-1500", zoo.SlI32{L: big}},
+		{"top-level-slice-1025", big[:1025]},
+		{"untyped-list-1025", zoo.AnyList{L: bigAny}},
+		{"ptr-slice-1030-with-nils", zoo.SlPtr{L: bigPtr}},
+		{"string-slice-1025-with-empties", zoo.SlStr{L: bigStr}},
+		{"nested-1025", zoo.SlSlI32{L: [][]int32{big[:1025], {1}, big[:1024]}}},
 		{"typed-slice-256", zoo.SlI32{L: long}},
 		{"typed-slice-263", zoo.SlI32{L: append(append([]int32{}, long...), 1, 2, 3, 4, 5, 6, 7)}},
 		{"empty-string-in-list", zoo.SlStr{L: []string{"a", "", "b"}}},
